@@ -90,7 +90,11 @@ pub fn hash_of<T: Hash>(t: &T) -> u64 {
 
 pub fn config_name() -> &'static str {
     if cfg!(feature = "cfg-std") {
-        "std"
+        if cfg!(debug_assertions) {
+            "std"
+        } else {
+            "std-release"
+        }
     } else if cfg!(feature = "cfg-alloc") {
         "alloc"
     } else {
